@@ -18,14 +18,20 @@ def gen_grid_spec(rng, ctor, dim=1):
     g = {"ctor": ctor, "dim": dim}
     if ctor == "uniform":
         g.update({"h_div": W.r6(W._logu(rng, 2.5, 40.0)), "p": float(rng.choice([0.9, 0.99, 0.999, 0.99999, 0.999999]))})
+        if rng.random() < 0.2:
+            g["h_div"] = W.r6(W._logu(rng, 0.6, 2.5))        # a spatial step of the size of the truncation bounds (coarsest levels)
     elif ctor == "fixed":
         g.update({"h": W.r6(W._logu(rng, 0.005, 0.3)), "n": int(rng.integers(5, 42))})
     elif ctor == "geometric":
         g.update({"h_div": W.r6(W._logu(rng, 3.0, 200.0)), "n_side": int(rng.integers(2, 13)),
                   "p": float(rng.choice([0.9, 0.99, 0.99999]))})
+        if rng.random() < 0.15:
+            g["h_div"] = W.r6(W._logu(rng, 0.6, 3.0))
     elif ctor == "geometric_bounds":
         l, r = -W.r6(W._logu(rng, 0.2, 3.0)), W.r6(W._logu(rng, 0.2, 3.0))
         g.update({"l": l, "r": r, "h": W.r6(min(-l, r) / W._logu(rng, 3.0, 100.0)), "n_side": int(rng.integers(2, 13))})
+        if rng.random() < 0.15:
+            g["h"] = W.r6(min(-l, r) / W._logu(rng, 0.7, 3.0))        # a spatial step of the size of the bounds
     elif ctor == "probstep":
         g.update({"h": W.r6(W._logu(rng, 0.005, 0.1)), "pstep": W.r6(W._logu(rng, 0.01, 0.2))})
     elif ctor in ("credit", "credit_asym"):
@@ -62,12 +68,9 @@ def build_grid(g, model):
             raise OutsideDomain(f"truncation search failed: {type(exc).__name__}") from exc
         g["_h"] = h
         if ctor == "uniform":
-            if int(abs(l) / h) < 2 or int(r / h) < 2:
-                raise OutsideDomain("fewer than two states on a half-axis")
+            # (a step of the size of the bounds is inside the domain: the constructor returns a well-formed grid or refuses)
             return S.CTMCUniformGrid(h=h, model=model, truncation_probability=p)
         if ctor == "geometric":
-            if not (h < r and h < -l):
-                raise OutsideDomain("h beyond the truncation")
             return S.CTMCGridGeometric(h=h, model=model, nb_of_points_on_each_side=g["n_side"], truncation_probability=p)
         # credit
         levels = [float(-h - f * (abs(l) - h)) for f in g["a_frac"]]
